@@ -240,7 +240,7 @@ func (st *SortTable) opaqueSort(name string) string {
 
 func (st *SortTable) structSort(base string, u *types.Struct, named types.Type) string {
 	name := "S_" + base
-	if prev, ok := st.names[name]; ok && !types.Identical(prev, named) {
+	if prev, ok := st.names[name]; ok && !types.Identical(prev, named) && !sameUpToTypeParams(prev, named) {
 		// collision between packages with the same name: disambiguate
 		name = name + "_" + fmt.Sprint(len(st.names))
 	}
@@ -465,4 +465,34 @@ func seqAxioms(S, E, zero string) string {
 // library struct types whose fields the contracts need to read
 var transparentExternal = map[string]bool{
 	"net/http.Request": true,
+}
+
+// sameUpToTypeParams: two instantiations of one generic type whose type arguments are type parameters of the same name
+// (batcherJob[T] inside a method of Batcher[T] and inside a generic helper func f[T]): one sort. A type parameter stands
+// for an unknown type in both places; keeping them apart would make a generic helper called from a generic method
+// write to a different heap component than its caller reads.
+func sameUpToTypeParams(a, b types.Type) bool {
+	na, ok1 := a.(*types.Named)
+	nb, ok2 := b.(*types.Named)
+	if !ok1 || !ok2 || na.Origin() != nb.Origin() {
+		return false
+	}
+	ta, tb := na.TypeArgs(), nb.TypeArgs()
+	if ta.Len() != tb.Len() || ta.Len() == 0 {
+		return false
+	}
+	for i := 0; i < ta.Len(); i++ {
+		pa, isA := ta.At(i).(*types.TypeParam)
+		pb, isB := tb.At(i).(*types.TypeParam)
+		if isA && isB {
+			if pa.Obj().Name() != pb.Obj().Name() {
+				return false
+			}
+			continue
+		}
+		if !types.Identical(ta.At(i), tb.At(i)) && !sameUpToTypeParams(ta.At(i), tb.At(i)) {
+			return false
+		}
+	}
+	return true
 }
